@@ -11,6 +11,7 @@ import (
 	"fmt"
 	"strings"
 	"sync/atomic"
+	_ "verif/h/duoc"
 
 	"github.com/biogo/biogo/alphabet"
 	"github.com/biogo/biogo/seq"
